@@ -47,10 +47,29 @@
 (* bytes are added to an event of `proper` bytes) and after Sign by        *)
 (* further servers (vias "setunsigned", "sign"): CheckFields judges the    *)
 (* event before (`pre`) and after the step.                                *)
+(*                                                                         *)
+(* WHAT IS HANDED ON (history variable `ret`).  "Reported as too large but *)
+(* persistable" is a report about an event the caller is meant to keep:    *)
+(* the receipt constructor and EventBuilder.Build return the event WITH    *)
+(* the error, and a list of received events (EventJSONs.UntrustedEvents)   *)
+(* keeps it.  So besides the judgement every operation that makes an event *)
+(* answers two more questions: is there an event in the caller's hands     *)
+(* (`pdu`), and does the list operation keep it (`kept`, receipt only).    *)
+(* accepted / persistable -> the event, kept; refused -> dropped from the  *)
+(* list (whether the constructor also returns something next to a          *)
+(* non-persistable error is not judged).  One clause is contested and not  *)
+(* judged: a room ID over the byte limit only is found before there is an  *)
+(* event (the constructors examine it first), so nothing may come back.    *)
+(* The rule is the same in every room version, for every limited field and *)
+(* whether or not the content hash matches.                                *)
+(* Family "batch2" / "batch3": a LIST of received events (ok, over the     *)
+(* byte limit only, over the code-point limit, not an event at all) goes   *)
+(* through the list operation item by item; what comes back is exactly the *)
+(* sub-list of the accepted and the persistable ones, in order.            *)
 (***************************************************************************)
 EXTENDS MatrixBase
 
-CONSTANTS Versions, Family      \* "single" | "core" | "pair" | "create" | "place"
+CONSTANTS Versions, Family      \* "single" | "core" | "pair" | "create" | "place" | "batch2" | "batch3"
 
 MaxFieldLen == 255
 MaxEventLen == 65536
@@ -88,8 +107,10 @@ HardCps  == [cps |-> 256, nwide |-> 0, width |-> 1]
 
 \* ev: byte accounting of the PDU in hand (total / without unsigned); pre: what CheckFields said of the PDU
 \* before SetUnsigned / Sign ("none" when the scenario has no such step)
-VARIABLES sc, phase, out, ev, pre
-vars == <<sc, phase, out, ev, pre>>
+\* ret: what the operation hands on besides the judgement (pdu: is there an event in the caller's hands; kept:
+\* does the list operation keep it); todo / keptidx: the list operation at work (family "batch*")
+VARIABLES sc, phase, out, ev, pre, ret, todo, keptidx
+vars == <<sc, phase, out, ev, pre, ret, todo, keptidx>>
 
 AllNatural == [f \in Fields |-> Natural]
 
@@ -125,6 +146,20 @@ Scenarios == CASE Family = "single" -> Singles \cup Sizes
                [] Family = "create" -> CreateWithRoomID
                [] Family = "core" -> CoreSingles \cup Sizes
                [] Family = "pair" -> Pairs
+               [] OTHER -> {}
+
+\* --- a list of received events ---------------------------------------------------
+\* an item: an event within the limits, one over the byte limit only / over the code-point limit in one field, or
+\* something that is not an event at all.  (A room ID over the byte limit only is the contested clause: left out.)
+IsBatch == Family \in {"batch2", "batch3"}
+BatchLen == IF Family = "batch3" THEN 3 ELSE 2
+Item(k, f) == [kind |-> k, field |-> f,
+               fields |-> CASE k = "soft" -> [AllNatural EXCEPT ![f] = SoftOnly]
+                            [] k = "hard" -> [AllNatural EXCEPT ![f] = HardCps]
+                            [] OTHER -> AllNatural]
+Items == {Item("ok", "none"), Item("junk", "none")}
+         \cup {Item("soft", f) : f \in Fields \ {"room_id"}} \cup {Item("hard", f) : f \in Fields}
+Batches == UNION {[1..k -> Items] : k \in 1..BatchLen}
 
 \* --- where the bytes are ---------------------------------------------------------
 Places == {"content", "unsigned", "split", "mixed", "fields", "prev_events", "auth_events", "signatures"}
@@ -160,7 +195,7 @@ InitClassic == \E v \in Versions, p \in Paths, s0 \in Scenarios : \E h \in Hashe
              /\ (Family = "create" => DomainlessRoomIDs(v) /\ p # "build")
              /\ sc = [ver |-> v, path |-> p, hash |-> h, size |-> s0.size, sizeof |-> SizeOf(h, s0.size), fields |-> s0.fields,
                       create |-> Family = "create", place |-> IF s0.size = 0 THEN "n/a" ELSE "content", proper |-> s0.size,
-                      via |-> DefaultVia(p), base |-> s0.size]
+                      via |-> DefaultVia(p), base |-> s0.size, batch |-> <<>>]
 \* a mismatching content hash on receipt: the classic size scenarios grow the event through auth_events, which
 \* redaction keeps; prev_events is the other list that it keeps
 PlaceHashes(p, pl) == IF pl = "prev_events" THEN HashesOf(p) ELSE {"match"}
@@ -168,9 +203,13 @@ InitPlace == \E v \in Versions, p \in Paths, s0 \in Placed : \E w \in ViasOf(p, 
              /\ Realisable(p, s0.place)
              /\ sc = [ver |-> v, path |-> p, hash |-> h, size |-> s0.size, sizeof |-> SizeOf(h, s0.size), fields |-> s0.fields,
                       create |-> FALSE, place |-> s0.place, proper |-> s0.proper,
-                      via |-> w, base |-> BaseBytes(w, s0.size, s0.proper)]
-Init == /\ phase = "scenario" /\ out = "none" /\ pre = "none"
-        /\ IF Family = "place" THEN InitPlace ELSE InitClassic
+                      via |-> w, base |-> BaseBytes(w, s0.size, s0.proper), batch |-> <<>>]
+InitBatch == \E v \in Versions, b \in Batches :
+             sc = [ver |-> v, path |-> "receipt", hash |-> "match", size |-> 0, sizeof |-> "n/a", fields |-> AllNatural,
+                   create |-> FALSE, place |-> "n/a", proper |-> 0, via |-> "list", base |-> 0, batch |-> b]
+NoRet == [pdu |-> "n/a", kept |-> "n/a"]
+Init == /\ phase = "scenario" /\ out = "none" /\ pre = "none" /\ ret = NoRet /\ todo = 1 /\ keptidx = <<>>
+        /\ IF Family = "place" THEN InitPlace ELSE IF IsBatch THEN InitBatch ELSE InitClassic
         /\ ev = IF sc.via \in Derived THEN [size |-> sc.base, proper |-> IF sc.via = "sign" THEN sc.base ELSE sc.proper]
                 ELSE [size |-> sc.size, proper |-> sc.proper]
 
@@ -185,26 +224,52 @@ Straddle(s) == s.path = "receipt" /\ s.proper <= MaxEventLen /\ s.size > MaxEven
 Alt(s) == IF Straddle(s) THEN "refused" ELSE Judgement(s)
 Judge(e) == Judgement([sc EXCEPT !.size = e.size, !.proper = e.proper])
 
-Receive     == phase = "scenario" /\ sc.path = "receipt"     /\ out' = Judge(ev) /\ phase' = "done" /\ UNCHANGED <<sc, ev, pre>>
-Build       == phase = "scenario" /\ sc.path = "build"       /\ out' = Judge(ev) /\ phase' = "done" /\ UNCHANGED <<sc, ev, pre>>
+\* what is handed on with judgement j: the event with "ok" and with "persistable" (that is what persistable is
+\* for), and the list operation keeps exactly these; CheckFields hands nothing on (it judges an event the caller
+\* holds).  Not judged ("free"): a room ID over the byte limit only (found before there is an event), and what
+\* the constructors return next to a non-persistable error.
+RoomSoft(s) == BytesOf(s.fields["room_id"]) > MaxFieldLen
+Handed(s, j) ==
+    LET k(x) == IF s.path = "receipt" THEN x ELSE "n/a" IN
+    CASE s.path = "checkfields" -> NoRet
+      [] j = "ok"          -> [pdu |-> "event", kept |-> k("yes")]
+      [] j = "persistable" -> IF RoomSoft(s) THEN [pdu |-> "free", kept |-> k("free")] ELSE [pdu |-> "event", kept |-> k("yes")]
+      [] OTHER             -> [pdu |-> "free", kept |-> k("no")]
+
+Receive     == /\ phase = "scenario" /\ sc.path = "receipt" /\ ~IsBatch
+               /\ out' = Judge(ev) /\ ret' = Handed(sc, Judge(ev)) /\ phase' = "done" /\ UNCHANGED <<sc, ev, pre, todo, keptidx>>
+Build       == /\ phase = "scenario" /\ sc.path = "build"
+               /\ out' = Judge(ev) /\ ret' = Handed(sc, Judge(ev)) /\ phase' = "done" /\ UNCHANGED <<sc, ev, pre, todo, keptidx>>
 CheckFields == /\ sc.path = "checkfields"
                /\ \/ /\ phase = "scenario" /\ sc.via \in Derived
-                     /\ pre' = Judge(ev) /\ phase' = "base" /\ UNCHANGED <<sc, ev, out>>
+                     /\ pre' = Judge(ev) /\ phase' = "base" /\ UNCHANGED <<sc, ev, out, ret, todo, keptidx>>
                   \/ /\ (phase = "scenario" /\ sc.via \notin Derived) \/ phase = "derived"
-                     /\ out' = Judge(ev) /\ phase' = "done" /\ UNCHANGED <<sc, ev, pre>>
+                     /\ out' = Judge(ev) /\ phase' = "done" /\ UNCHANGED <<sc, ev, pre, ret, todo, keptidx>>
+\* the list operation: every item is received on its own; the accepted and the persistable ones are kept, in order
+ItemJudgement(it) == IF it.kind = "junk" THEN "notanevent"
+                     ELSE Judgement([path |-> "receipt", size |-> 0, proper |-> 0, fields |-> it.fields])
+ItemKept(it) == LET j == ItemJudgement(it) IN
+                j # "notanevent" /\ Handed([path |-> "receipt", fields |-> it.fields], j).kept = "yes"
+ReceiveItem == /\ phase = "scenario" /\ IsBatch /\ todo <= Len(sc.batch)
+               /\ keptidx' = IF ItemKept(sc.batch[todo]) THEN Append(keptidx, todo) ELSE keptidx
+               /\ todo' = todo + 1
+               /\ UNCHANGED <<sc, phase, out, ev, pre, ret>>
+ListDone    == /\ phase = "scenario" /\ IsBatch /\ todo > Len(sc.batch)
+               /\ out' = "list" /\ phase' = "done" /\ UNCHANGED <<sc, ev, pre, ret, todo, keptidx>>
 \* SetUnsigned returns a copy of the event that carries the unsigned member; Sign one with one more signature
 SetUnsigned == /\ phase = "base" /\ sc.via = "setunsigned"
                /\ ev' = [size |-> ev.proper + (sc.size - sc.proper), proper |-> ev.proper]
-               /\ phase' = "derived" /\ UNCHANGED <<sc, out, pre>>
+               /\ phase' = "derived" /\ UNCHANGED <<sc, out, pre, ret, todo, keptidx>>
 Sign        == /\ phase = "base" /\ sc.via = "sign"
                /\ ev' = [size |-> ev.size + (sc.size - sc.base), proper |-> ev.proper + (sc.size - sc.base)]
-               /\ phase' = "derived" /\ UNCHANGED <<sc, out, pre>>
+               /\ phase' = "derived" /\ UNCHANGED <<sc, out, pre, ret, todo, keptidx>>
 
-Next == Receive \/ Build \/ CheckFields \/ SetUnsigned \/ Sign
+Next == Receive \/ Build \/ CheckFields \/ SetUnsigned \/ Sign \/ ReceiveItem \/ ListDone
 Spec == Init /\ [][Next]_vars
 
 \* --- the property sentence, clause by clause -----------------------------------
-Done == phase = "done"
+Done == phase = "done" /\ ~IsBatch
+BatchDone == phase = "done" /\ IsBatch
 \* "their JSON": all of it on build and in CheckFields; on receipt the event as kept (received minus "unsigned")
 JsonBytes == IF sc.path = "receipt" THEN sc.proper ELSE sc.size
 RefusedWhenOver == Done => ((JsonBytes > 65536 \/ \E f \in Fields : sc.fields[f].cps > 255) <=> out = "refused")
@@ -235,4 +300,25 @@ Accounting == /\ sc.proper <= sc.size /\ sc.base <= sc.size
               /\ (Done => (sc.via \in Derived <=> pre # "none"))
               /\ (sc.via \in Derived => sc.path = "checkfields")
 GrowthKeepsRefusal == Done /\ pre = "refused" => out = "refused"
+\* "too large but persistable": the event is in the caller's hands and the list operation keeps it (room ID
+\* apart); an accepted event likewise; a refused one never survives the list operation
+Making == sc.path \in {"receipt", "build"}
+PersistableIsHandedOn == Done /\ Making /\ out = "persistable" /\ ~RoomSoft(sc) =>
+                           ret.pdu = "event" /\ (sc.path = "receipt" => ret.kept = "yes")
+AcceptedIsHandedOn == Done /\ Making /\ out = "ok" => ret.pdu = "event" /\ (sc.path = "receipt" => ret.kept = "yes")
+RefusedIsDropped == Done /\ sc.path = "receipt" /\ out = "refused" => ret.kept = "no"
+KeptOnReceiptOnly == Done => (ret.kept = "n/a" <=> sc.path # "receipt") /\ (ret.pdu = "n/a" <=> sc.path = "checkfields")
+\* the same in every room version, whatever the content hash, wherever the bytes are
+HandedUniform == Done => \A v \in Versions, h \in HashesOf(sc.path) :
+                           Handed([sc EXCEPT !.ver = v, !.hash = h, !.place = "content"], out) = ret
+\* the list operation returns exactly the accepted and the persistable items, in the order received
+BatchFilter == BatchDone =>
+                 /\ \A i \in 1..Len(sc.batch) :
+                       (\E k \in 1..Len(keptidx) : keptidx[k] = i) <=> ItemJudgement(sc.batch[i]) \in {"ok", "persistable"}
+                 /\ \A k \in 1..(Len(keptidx) - 1) : keptidx[k] < keptidx[k + 1]
+                 /\ todo = Len(sc.batch) + 1
+BatchItemsJudged == IsBatch => \A i \in 1..Len(sc.batch) :
+                      LET it == sc.batch[i] IN
+                      ItemJudgement(it) = CASE it.kind = "ok" -> "ok" [] it.kind = "soft" -> "persistable"
+                                            [] it.kind = "hard" -> "refused" [] OTHER -> "notanevent"
 =============================================================================
